@@ -483,6 +483,10 @@ def If(c, a, b):
     ce = tb(c)
     if isinstance(a, (bool, SBool)) and isinstance(b, (bool, SBool)):
         return mkbool(z3.If(ce, tb(a), tb(b)))
+    if isinstance(a, SLetter) or isinstance(b, SLetter):
+        pa, pb = _letter_parts(a), _letter_parts(b)
+        if pa is not None and pb is not None:
+            return mkletter(mkint(z3.If(ce, tz(pa[0]), tz(pb[0]))), mkint(z3.If(ce, tz(pa[1]), tz(pb[1]))))
     return mkint(z3.If(ce, tz(a), tz(b)))
 
 
@@ -672,6 +676,14 @@ class SLetter(SInt):
         self.base = base  # int | SInt
         self.case = case  # int | SInt
         SInt.__init__(self, z3.simplify(tz(base) + 4 * tz(case)))
+
+
+def _letter_parts(x):
+    if isinstance(x, SLetter):
+        return x.base, x.case
+    if isinstance(x, int) and not isinstance(x, bool) and 0 <= x < 8:
+        return x % 4, x // 4
+    return None
 
 
 def mkletter(base, case):
